@@ -54,6 +54,12 @@ def mockgate_obligations(ctx):
     generated_obligations(ctx, mg.render, "Cgreen.Gen.MockGate", None, "the stages of mock_() rendered into Lean")
 
 
+def traversal_obligations(ctx, only=None):
+    """translate/traversal.py: run_every_test() and run_named_test() rendered from the current source, against the model's order"""
+    import traversal as tv
+    generated_obligations(ctx, tv.render, "Cgreen.Gen.Traversal", only, "the traversal of a suite (run_every_test, run_named_test) rendered into Lean")
+
+
 def outside_bracket_scens():
     """Scenarios in which a failed check reaches the channel outside a test's own bracket: (scenario, description)."""
     late = []
@@ -103,6 +109,7 @@ def verdict_under_every_reporter(ctx, bench, scens, label, what):
 
 def check_C01(ctx):
     runner_lean(ctx)
+    traversal_obligations(ctx, ["every_test_skeleton", "every_test_sub_suites", "every_test_own_tests", "named_test_skeleton"])
     import verdict as vd
     generated_obligations(ctx, vd.render, "Cgreen.Gen.Verdict", ["suite_verdict", "single_verdict"], "the verdict expressions of run_test_suite() and run_single_test()", sites=["verdict"])
     rng = random.Random(ctx.seed * 1000 + 1)
@@ -169,6 +176,7 @@ def check_C01(ctx):
 def check_C03(ctx):
     runner_lean(ctx)
     reader_obligations(ctx)
+    traversal_obligations(ctx, ["every_test_skeleton", "every_test_sub_suites", "every_test_own_tests"])
     rng = random.Random(ctx.seed * 1000 + 3)
     bench = Bench(ctx)
     scens = small_scope(rng, sizes(ctx, 40, 400)) + [Scen(gen_tree(rng, max_tests=14)) for _ in range(sizes(ctx, 60, 1500))]
@@ -602,6 +610,7 @@ def oracle_C08(scen, m, o, reporter):
 def check_C08(ctx):
     runner_lean(ctx)
     phase_obligations(ctx)
+    traversal_obligations(ctx)
     rng = random.Random(ctx.seed * 1000 + 8)
     bench = Bench(ctx)
     scens = []
@@ -1095,6 +1104,7 @@ def check_C04(ctx):
 def check_C13(ctx):
     ok, out, failed = lean_check(ctx)
     phase_obligations(ctx, ["resets_come_first", "phases_are_the_models"])
+    traversal_obligations(ctx, ["named_test_skeleton", "named_test_sub_suites", "named_test_own_tests"])
     rng = random.Random(ctx.seed * 1000 + 13)
     bench = Bench(ctx)
     scens = []
